@@ -366,6 +366,9 @@ func errDisciplineSeen(c *Check) {
 			fis = append(fis, fi)
 		}
 	})
+	keptFis := append([]*FuncInfo{}, fis...)
+	sort.Slice(keptFis, func(i, j int) bool { return keptFis[i].Name() < keptFis[j].Name() })
+	defer keptEffectsSeen(c, keptFis)
 	// functions that call helpers the reference tree did not have: E1–E4 look at the bodies as written, and at the
 	// helpers themselves
 	if len(p.origBody) > 0 {
